@@ -314,7 +314,7 @@ theorem c08_retained_le (P : Nat) (d : Dec) (hi : Inv P d) : retained d ≤ maxF
 
 /-- **C08 bounded memory, number of retained slices**: every retained fragment is non-empty, so
 the decoder never holds more slices than retained bytes (the unrepaired decoder kept empty FT-3
-fragments without limit: fix 870da5e). -/
+fragments without limit: fix 44236d6). -/
 theorem c08_fragment_count_le (P : Nat) (d : Dec) (hi : Inv P d) : d.fragments.length ≤ retained d := by
   unfold retained
   have h := hi.nonempty
@@ -677,7 +677,7 @@ theorem c07_resync (h : List Pkt) (e : Enc) (g : List Bytes) (hc : ValidCfg e.cf
 
 /-! ## facts the model depends on (regenerated from /repo on every run) -/
 
-/-- the decoder refuses following fragments without data (fix 870da5e is in the tree) -/
+/-- the decoder refuses following fragments without data (fix 44236d6 is in the tree) -/
 example : CodecAudio.ac3EmptyFragmentRefused = true := rfl
 /-- the frame-size table has 38 rows and its largest entry is 1920 words -/
 example : CodecAudio.ac3FrameSizeRows = frameSizes.length ∧ CodecAudio.ac3MaxFrameWords = 1920 := ⟨rfl, rfl⟩
